@@ -903,6 +903,10 @@ func caseC18(c *Ctx) {
 		p.W["RegisterType"] = 3
 		p.Late = lateKeys(c.R, 8)
 	}
+	if c.Case%4 == 2 {
+		// the world is reset and its entities are re-loaded from a dump while mappers, exchanges and filters live on
+		p.W["DumpKeep"], p.W["ResetLoad"] = 3, 4
+	}
 	p.W["G.Map"], p.W["G.Single"], p.W["G.Ex"], p.W["G.Filter"] = 60, 15, 25, 45
 	gs := NewSess(cfg, Opts{Events: true, Model: c.Case%2 == 0, Track: true, Inv: c.Case%4 == 0})
 	gs.gfs = map[int]*gfState{}
